@@ -69,7 +69,7 @@ def schedules(records, header=None, trailer=b"\xc7\x6b\xd3\xcb"):
 
 
 def _cap(rel):
-    with open(os.path.join(REPO, "tests", "testresources", rel)) as fh:
+    with open(os.path.join(REPO, "tests", "testresources", rel), encoding="utf-8") as fh:
         return bytes.fromhex(fh.read().strip())
 
 
